@@ -747,6 +747,15 @@ def run(ctx):
     check_framing(ctx, fb)
     check_reader_contract(ctx, fb)
     check_evaluate(ctx, fb)
+    # R20-6 (shared with C19 R19-4/R19-5): evaluation "as specified" includes the operators' guards: division / modulo by zero, the
+    # whole-value bound in front of every truncated read of a shift amount, whole-value integer quotient and remainder
+    from . import c19
+    from ..main import Ctx as _Ctx
+    sub = _Ctx(ctx.pid, ctx.tier)
+    c19.check_guards(sub, fb)
+    c19.check_intdiv(sub, fb)
+    for r in sub.results:
+        (ctx.ok if r.status == "ok" else ctx.fail)("R20-6", r.instance, r.reason, r.loc)
     # fixtures: a swapped operator table and a swapped field must be caught
     fx = ctx.fb("fixtures")
     try:
